@@ -1245,11 +1245,11 @@ fn main() {
     }
     let t_start = Instant::now();
     let thorough = args.thorough();
-    let n_gen: usize = args.extra.get("programs").and_then(|s| s.parse().ok()).unwrap_or(if thorough { 10000 } else { 500 });
+    let n_gen: usize = args.extra.get("programs").and_then(|s| s.parse().ok()).unwrap_or(if thorough { 10000 } else { 400 });
     // robustness is run for every `robust_every`-th program
-    let robust_every: usize = args.extra.get("robust_every").and_then(|s| s.parse().ok()).unwrap_or(10);
-    let max_operand: usize = args.extra.get("max_operand").and_then(|s| s.parse().ok()).unwrap_or(if thorough { 1000 } else { 4 });
-    let workers: usize = args.extra.get("workers").and_then(|s| s.parse().ok()).unwrap_or(6);
+    let robust_every: usize = args.extra.get("robust_every").and_then(|s| s.parse().ok()).unwrap_or(if thorough { 20 } else { 30 });
+    let max_operand: usize = args.extra.get("max_operand").and_then(|s| s.parse().ok()).unwrap_or(if thorough { 8 } else { 3 });
+    let workers: usize = args.extra.get("workers").and_then(|s| s.parse().ok()).unwrap_or(if thorough { 12 } else { 6 });
     let watchdog = Duration::from_secs(args.extra.get("watchdog").and_then(|s| s.parse().ok()).unwrap_or(if thorough { 15 } else { 4 }));
 
     // ---- cases: corpus first, then generated programs in both styles ----
@@ -1268,7 +1268,7 @@ fn main() {
     let std_files: &[&str] = if thorough {
         &["map", "list", "option", "result", "string", "char", "int", "float", "bool", "unit", "array", "functor", "monoid", "foldable", "state", "writer", "lazy", "stream", "parser", "json/de"]
     } else {
-        &["map", "list", "option", "parser"]
+        &["map", "list"]
     };
     if args.extra.get("std").map(|s| s != "0").unwrap_or(true) {
         for m in std_files {
@@ -1549,7 +1549,8 @@ fn main() {
             }
         }
         // (4) robustness jobs
-        if ci % robust_every == 0 || (case.program.is_none() && case.family.starts_with("corpus")) {
+        // (modules that need the prelude make every respawned child import half of std again: thorough tier only)
+        if (ci % robust_every == 0 || (case.program.is_none() && case.family.starts_with("corpus"))) && (thorough || !prelude) {
             let mut jrng = Rng::new(args.seed ^ fnv(case.source.as_bytes()));
             for (fmt, bytes) in &blobs {
                 let mut cs = truncations(bytes);
@@ -1559,7 +1560,7 @@ fn main() {
                     Fmt::BinVar => cs.extend(bincode_corruptions(bytes, &sk, false, &deps, &mut jrng)),
                 }
                 // operand corruptions nearly always end the child (no bytecode verifier): the quick tier takes a
-                // random handful per program and format, the thorough tier all of them
+                // random handful per program and format, the thorough tier a larger one
                 let mut operand: Vec<usize> = (0..cs.len()).filter(|k| cs[*k].class.starts_with("corrupt:instr-index")).collect();
                 let mut drop_set: HashSet<usize> = HashSet::new();
                 while operand.len() > max_operand {
@@ -1593,8 +1594,10 @@ fn main() {
 
     // ---- (4) run the robustness jobs in child processes ----
     let n_jobs = jobs.len();
+    // unmodified modules first (stable): they decide whether an entry point is usable for a format at all
+    jobs.sort_by_key(|j| if j.class == "unmodified" { 0 } else { 1 });
     let queue = Arc::new(Mutex::new((0usize, jobs)));
-    let results: Arc<Mutex<Vec<(usize, JobResult)>>> = Arc::new(Mutex::new(Vec::new()));
+    let results: Arc<Mutex<Vec<(usize, JobResult, u64)>>> = Arc::new(Mutex::new(Vec::new()));
     // hangs seen so far per (entry point, format): after 2 the remaining jobs of that kind are skipped (each costs a
     // full watchdog period; they are counted in the histogram as skipped)
     let hangs: Arc<Mutex<BTreeMap<String, u32>>> = Arc::new(Mutex::new(BTreeMap::new()));
@@ -1615,18 +1618,21 @@ fn main() {
                     q.0 += 1;
                     (i, q.1[i].clone())
                 };
-                // `load_bytecode` blocks for one and the same reason whatever the input; other hangs are counted
-                // per corruption class
-                let hk = if job.api == Api::Load { format!("{}:{}", job.api.name(), job.fmt.name()) } else { format!("{}:{}:{}", job.api.name(), job.fmt.name(), job.class) };
-                let r = if hangs.lock().unwrap().get(&hk).copied().unwrap_or(0) >= 2 {
-                    JobResult::Skipped
-                } else {
-                    run_job(&mut child, &job, (w as u64) << 32 | idx as u64, watchdog)
+                // hangs are counted per (entry point, format, corruption class); an entry point that hangs on
+                // UNMODIFIED modules of a format is not tried on corrupted modules of that format at all
+                let hk = format!("{}:{}:{}", job.api.name(), job.fmt.name(), job.class);
+                let hk_all = format!("{}:{}:unmodified", job.api.name(), job.fmt.name());
+                let tripped = {
+                    let h = hangs.lock().unwrap();
+                    h.get(&hk).copied().unwrap_or(0) >= 2 || h.get(&hk_all).copied().unwrap_or(0) >= 2
                 };
+                let t0 = Instant::now();
+                let r = if tripped { JobResult::Skipped } else { run_job(&mut child, &job, (w as u64) << 32 | idx as u64, watchdog) };
+                let ms = t0.elapsed().as_millis() as u64;
                 if let JobResult::Hang = r {
                     *hangs.lock().unwrap().entry(hk).or_insert(0) += 1;
                 }
-                results.lock().unwrap().push((idx, r));
+                results.lock().unwrap().push((idx, r, ms));
             }
             if let Some(mut c) = child {
                 drop(c.stdin);
@@ -1643,8 +1649,9 @@ fn main() {
     results.sort_by_key(|r| r.0);
     let mut robust_hist: BTreeMap<String, u64> = BTreeMap::new();
     let mut robust_samples: BTreeMap<String, String> = BTreeMap::new();
-    for (idx, r) in results {
+    for (idx, r, ms) in results {
         let job = &jobs[idx];
+        hist.addn(&format!("child-ms:{}:{}", job.class.split(':').take(2).collect::<Vec<_>>().join(":"), job.api.name()), ms);
         let (bad, kind, observed) = match &r {
             JobResult::Outcome(o) => {
                 if o.contains("hostpanic") {
